@@ -526,6 +526,10 @@ def rules(ctx):
     r3_shipped_graphs(ctx)
     r4_orientation(ctx)
     r5_proxy(ctx)
+    # "invalid definitions are refused": every submission is judged on its own - nothing computed for one graph (a memo of orders / path
+    # matrices filled before the refusal) is served to a later submission of the same definitions (same rule as C13.R5 / C01.R9)
+    from .c13 import r5_shared_defaults
+    r5_shared_defaults(ctx, rid="C15.R8", scope="leaspy.variables.dag", title="no module-level / class-level memo in the graph construction (each submission is checked on its own)")
     ctx.trust("sorted() on strings; SimpleQueue FIFO; torch boolean indexing / nonzero order")
     ctx.note("NamedVariables._latent_ind_vars is a set: the order of the float sum in nll_regul_ind_sum_ind may differ between processes (hash seed) - outside this property's statement")
 
